@@ -372,7 +372,8 @@ prop("C17",
      "surface (findObject by name for every name, checkObjectType for every name and type, getObjects, empty, "
      "findObject(pred), findObject(pred,type)) is compared with a reference map; an entry that received addType "
      "while its name was not stored has unspecified tags: checkObjectType on it is skipped and the typed find must "
-     "return one of the objects that reading allows (it is always executed: memory safety). Concurrent part: " + SCHED_RULE + " Programs: 2 clients "
+     "return one of the objects that reading allows (it is always executed: memory safety); scale programs with 10 / "
+     "33 (thorough: 50) names checked against std::map after every phase. Concurrent part: " + SCHED_RULE + " Programs: 2 clients "
      "with <=2 calls and 3 clients with 1 call over 14 calls (including addType).",
      "Oracles: reference-map agreement; quarantine arena (std::map nodes are allocated through the replaced "
      "operator new, so any instrumented read of an erased node is reported); brute-force linearizability of "
